@@ -24,6 +24,7 @@ RULE = ('Cases = small valid frames (1-3 instruments, 1-8 stamps, 0-3 layers, VV
         'pre-call copy; check(check(x)) equals check(x) and emits no column/dtype warning; CeiloChunk(x) agrees on '
         'accept/refuse. Non-trivial = >= 1 injected defect or near-miss or a dtype/layout variant. Distinct by (defect '
         'kinds, dtype kinds, layout).')
+ENGINE = 'hypothesis (16 shards) + atheris/libFuzzer driving the same strategy through fuzz_one_input with ampycloud instrumented for coverage'
 ASSUMPTIONS = ['rows equal on the four columns but differing in an extra column are not generated (undecided by the statement)',
                'only coercible dtype variants are generated, as the quantifier says']
 BUDGET = {'quick': 6000, 'thorough': 200000}
@@ -57,12 +58,28 @@ def strategy_(draw):
               'type': draw(st.sampled_from(['int', 'int', 'int8', 'float', 'str', 'Int64']))}
     return {'rows': rows, 'defects': defects, 'dtypes': dtypes,
             'extra': draw(st.lists(st.sampled_from(['x', 'slice_id', 'index']), max_size=2, unique=True)),
-            'cols': list(draw(st.permutations(['ceilo', 'dt', 'height', 'type']))),
+            'cols': list(draw(S.permutation(['ceilo', 'dt', 'height', 'type']))),
             'index': draw(st.sampled_from(['range', 'range', 'offset', 'string', 'nonunique']))}
 
 
 def strategy(tier):
     return strategy_()
+
+
+ATHERIS = {'quick': (2, 400), 'thorough': (16, 12000)}   # (instances, libFuzzer runs per instance)
+
+
+def jobs(tier, seed):
+    from vlib import runner
+    n, runs = ATHERIS[tier]
+    return [{'name': f'atheris-{i}', 'runs': runs, 'seed': runner.derive_seed(seed, ID, 'atheris', i) % (2 ** 31)}
+            for i in range(n)]
+
+
+def run_job(job, ctx):
+    import sys
+    from vlib import runner
+    runner.atheris_explore(sys.modules[__name__], ctx, ID, job['runs'], job['seed'], job['tier'])
 
 
 def build(case):
